@@ -231,7 +231,7 @@ def Client.verify (env : Env) (name : Bytes) (cl : Client) (now : UInt64) (h : H
      | some root, some pt => decide (pt + cl.delayTime ≤ now) && env.verify name cl.kind root proof path value
      | _, _ => false)
   | _ =>
-    !(cl.latest.lt h) &&
+    !(cl.latest.lt h) && !(decide (cl.latest.h < h.h)) &&
     (match cl.cons.get h with
      | some root => decide (cl.delayBlock ≤ cl.latest.h - h.h) && env.verify name cl.kind root proof path value
      | none => false)
@@ -259,6 +259,7 @@ inductive Msg
   | updateClient (chain : Bytes) (h : Height) (root : Bytes) (signer : Bytes) (headerOk : Bool)
   | createClient (chain : Bytes) (cl : Client)           -- governance (abstract)
   | registerRelayer (r : Relayer)                        -- governance (abstract)
+  | restart                                              -- node restart through genesis export -> JSON -> import
 
 /-- the callback's state changes are committed (`write()`): CallPacket succeeded with result code 0 -/
 def Callback.committed : Callback → Bool
@@ -441,6 +442,9 @@ def handle (env : Env) (c : Chain) (now : UInt64) : Msg → Err Chain
   | .updateClient chain h root signer ok => updateClient c now chain h root signer ok
   | .createClient chain cl => .ok { c with clients := c.clients.set chain cl }
   | .registerRelayer r => .ok { c with relayers := insertRelayer r c.relayers }
+  -- x/xibc ExportGenesis -> InitGenesis re-creates every client, consensus state, relayer, receipt, commitment,
+  -- acknowledgement and send sequence under the key it had: the identity on the modelled state
+  | .restart => .ok c
 
 /-- runMsgs: a handler error discards every write of the message. -/
 def deliver (env : Env) (c : Chain) (now : UInt64) (m : Msg) : Chain × Result :=
